@@ -172,6 +172,24 @@ def _smt_lit(v):
     return '"' + "".join(ch if 32 <= ord(ch) < 127 and ch not in '"\\' else ('""' if ch == '"' else "\\u{%x}" % ord(ch)) for ch in v) + '"'
 
 
+def _spec_replay(pid, c, reason, out):
+    """A contract whose VCs could not be generated on the current source (code left the subset the contract anchors,
+    e.g. a loop under invariant was rewritten) is UNDECIDED.  When it carries a replay hook -- its postcondition as an
+    executable specification plus an input search on the REAL code -- the hook is still run: a failing input is a genuine
+    violation (replayed, concrete); no failing input leaves the contract undecided.  Never counted as proved."""
+    if not getattr(c, "replay", None):
+        return
+    name = f"{pid}/{c.target}/{c.id}/spec-replay#0"
+    try:
+        res = c.replay({}, {"name": name})
+    except Exception as err:
+        res = {"reproduced": False, "error": f"{type(err).__name__}: {err}"}
+    if res.get("reproduced"):
+        out.append({"name": name, "backend": "replay search of the contract's executable specification on the real code (no VC generated)", "s": 0.0,
+                    "descr": f"postcondition of {c.id} fails on a concrete input; VC generation gave up ({reason})", "line": None, "model": {},
+                    "kind": "spec-replay", "contract": c, "replayed": res})
+
+
 def run_property(pid, tier="quick", seed=0, only=None, verbose=False):
     t0 = time.time()
     sys.path.insert(0, VERIF)
@@ -194,6 +212,7 @@ def run_property(pid, tier="quick", seed=0, only=None, verbose=False):
     errors = []
     canaries = []
     trivial_count = 0
+    late_refuted = []
 
     # ---- proofs (contracts explored in parallel worker processes; z3 terms do not cross processes, so the
     #      workers return SMT-LIB text) -------------------------------------------------------------
@@ -210,12 +229,14 @@ def run_property(pid, tier="quick", seed=0, only=None, verbose=False):
             continue
         if ex.get("engine_error"):
             undecided.append({"contract": c.id, "reason": f"engine exception {ex['engine_error']}", "trace": ex.get("trace")})
+            _spec_replay(pid, c, f"engine exception {ex['engine_error']}", late_refuted)
             continue
         fdesc = dict(ex["fdesc"])
         fdesc.update({"contract": c.id, "paths": ex["stats"]["paths"], "exits": ex["exits"], "ints": c.ints})
         functions.append(fdesc)
         if ex.get("unsupported"):
             undecided.append({"contract": c.id, "reason": f"unsupported: {ex['unsupported']}"})
+            _spec_replay(pid, c, f"unsupported: {ex['unsupported']}", late_refuted)
             continue
         if len(ex["obligations"]) + len(ex["trivial"]) == 0:
             errors.append(f"{c.id}: zero obligations generated (vacuous)")
@@ -317,6 +338,7 @@ def run_property(pid, tier="quick", seed=0, only=None, verbose=False):
             refuted.append({"name": name, "backend": r["backend"], "s": r["s"], "descr": m["descr"], "line": m["line"], "model": r.get("model") or {}, "kind": m["kind"], "contract": m["contract"]})
         else:
             undecided.append({"contract": m["contract"].id, "obligation": name, "reason": "solver unknown/timeout", "attempts": r["attempts"]})
+    refuted.extend(late_refuted)
     for cid, group in canaries:
         if group and all(by_name[cn]["verdict"] == "unsat" for cn in group):
             errors.append(f"{cid}: every canary discharged -> contract is vacuous (contradictory requires/invariant)")
@@ -419,7 +441,9 @@ def run_property(pid, tier="quick", seed=0, only=None, verbose=False):
         c = r["contract"]
         concrete = r.get("concrete")
         replayed = None
-        if concrete is None and isinstance(c, Contract) and getattr(c, "replay", None):
+        if r.get("replayed") is not None:
+            replayed = r["replayed"]
+        elif concrete is None and isinstance(c, Contract) and getattr(c, "replay", None):
             try:
                 replayed = c.replay(r["model"], r)
             except Exception as err:
